@@ -59,8 +59,11 @@ func notifyListNotifyOne(l) {
 ```
 
 One semaphore address and one notify list are modelled (the per-address maps `semaMap` / `notifyMap` are exercised by
-the correspondence check with several addresses, by projection).  Counters are natural numbers: the wrap-around of the
-`uint32` counters after 2^32 operations is not modelled.  `Cfg` selects the code variant: `Cfg.current` is the pinned
+the correspondence check with several addresses, by projection).  The semaphore count is a natural number (its
+wrap-around after 2^32 releases is not modelled).  The ticket counters `wait` / `notify` of the notify list are kept as
+the TRUE (unbounded) numbers of tickets drawn / notified, starting at an arbitrary `c0` (`initAt`), while every decision
+the code takes is computed on their 32-bit images (`% 2^32`, `less32` = `int32(a-b) < 0`): histories that start just
+below the 2^32 wrap are part of the model, and the theorems say when the wrapped comparisons are exact.  `Cfg` selects the code variant: `Cfg.current` is the pinned
 tree, `Cfg.fixed` the tree after `/verif/fixes/C11-1.diff` (ticket comparison + broadcast in `NotifyOne`) and
 `C11-2.diff` (retry after a failed CAS).
 -/
@@ -152,9 +155,15 @@ inductive Wake where
   | listAll     -- `st.cond.Broadcast()` of the notify list
   deriving DecidableEq, Repr
 
-/-- does `notifyListWait(t)` keep waiting when it reads `notify = n`? -/
+/-- 2^32: the ticket counters are `uint32` -/
+def W32 : Nat := 4294967296
+
+/-- `notifyLess(a, b) = int32(a-b) < 0` on the 32-bit images of `a` and `b` -/
+def less32 (a b : Nat) : Bool := decide (2147483648 ≤ (a % W32 + W32 - b % W32) % W32)
+
+/-- does `notifyListWait(t)` keep waiting when it reads `notify = n`?  (computed on the 32-bit images) -/
 def keepWaiting (cfg : Cfg) (n t : Nat) : Bool :=
-  if cfg.ticketLess then !(decide (t < n)) else n == t
+  if cfg.ticketLess then !(less32 t n) else n % W32 == t % W32
 
 /-- One step of thread `i` (its record is `t`) on the shared part: new shared part, new thread record, the wake-up it
     performs, the event.  `none` = the thread cannot run (finished, blocked in `Cond.Wait`, or its mutex is held). -/
@@ -217,7 +226,7 @@ def stepThread (cfg : Cfg) (i : Nat) (sh : Shared) (t : Thread) : Option (Shared
     if sh.nmu = none then some ({ sh with nmu := some i }, t.goto .n1LoadNotify, .none, none) else none
   | .n1LoadNotify => some (sh, t.goto (.n1LoadWait sh.notify), .none, none)
   | .n1LoadWait n =>
-    if n ≠ sh.wait then some (sh, t.goto .n1Add, .none, none)
+    if n % W32 ≠ sh.wait % W32 then some (sh, t.goto .n1Add, .none, none)
     else some ({ sh with nmu := none }, t.finish, .none, some .notifiedOne)
   | .n1Add =>
     some ({ sh with notify := sh.notify + 1, nmu := none }, t.finish,
@@ -294,12 +303,15 @@ inductive Reachable (cfg : Cfg) (s0 : State) : State → Prop where
   | step {s s' : State} (a : Action) : Reachable cfg s0 s → next cfg s a = some s' → Reachable cfg s0 s'
 
 /-- the initial state of `n` threads with the given programs: count `v`, nobody waiting, nothing locked -/
-def initShared (v : Nat) : Shared :=
-  { val := v, waiters := 0, mu := none, wait := 0, notify := 0, nmu := none,
+def initShared (v c0 : Nat) : Shared :=
+  { val := v, waiters := 0, mu := none, wait := c0, notify := c0, nmu := none,
     acquired := 0, released := 0, acqSaw := [], rets := [], maxVal := v }
 
-def init (v : Nat) (progs : List (List Op)) : State :=
-  { sh := initShared v, threads := progs.map Thread.start }
+/-- count `v`, both ticket counters at `c0` (a notify list that has already served `c0` waiters) -/
+def initAt (v c0 : Nat) (progs : List (List Op)) : State :=
+  { sh := initShared v c0, threads := progs.map Thread.start }
+
+def init (v : Nat) (progs : List (List Op)) : State := initAt v 0 progs
 
 /-- an initial state: every thread at the first parking point of its program -/
 def State.isInit (s : State) : Prop :=
